@@ -262,7 +262,7 @@ fn state_test(c: &StateCase, obs: &mut Obs) -> CheckResult {
     for (i, op) in c.ops.iter().enumerate() {
         clock += 1000;
         let now = super::c07::t0() + Duration::from_nanos(clock);
-        let mut respond = |st: &mut VerifTracerState, seq: u16, target: bool| {
+        let respond = |st: &mut VerifTracerState, seq: u16, target: bool| {
             // Strategy::recv_response: only sequences of the round in progress reach complete_probe
             if st.in_round(Sequence(seq)) {
                 st.complete_probe(Sequence(seq), host, target, now);
